@@ -115,7 +115,7 @@ fn parse_vs_reference<const N: usize>() {
 // @outside buffers longer than 20 (quick) / 72 (thorough, handshake-sized) bytes; frames near 64 KiB are covered only through the length arithmetic
 // @desc Frame::parse never panics and agrees with an independent BEP3 reference: Ok <=> complete well-formed frame (cursor = its length <= received), unknown id => skip 4+len, waits (Incomplete) only when a valid frame can still complete, malformed or oversized length prefixes are fatal errors
 #[kani::proof]
-#[kani::unwind(6)]
+#[kani::unwind(3)]
 fn c06_frame_parse_vs_reference_20() {
     parse_vs_reference::<20>();
 }
